@@ -175,7 +175,7 @@ def _fn_refs(x, acc):
 AND_THEN = {'std::result::Result::<T, E>::and_then': 'Result', 'std::option::Option::<T>::and_then': 'Option'}
 
 
-def lower_and_then(j, baseline):
+def lower_and_then(j, baseline, skip=()):
     """`dest = r.and_then(f)` becomes the match it abbreviates: a switch on r's discriminant, a call of f on the payload in the
     success arm, the failure rebuilt in the other -- so that the test is a guard like the one `f(r?)` gives.  Functions that used
     `and_then` at the baseline keep their form (the rules read them as they are)."""
@@ -183,7 +183,7 @@ def lower_and_then(j, baseline):
     local_fns = {f['path'] for f in j['fns'] if f['label'] == 'fn'}
     n = 0
     for f in j['fns']:
-        if f['label'] != 'fn' or f['path'].split('::{closure')[0] in keep:
+        if f['label'] != 'fn' or f['path'].split('::{closure')[0] in keep or f['path'].split('::{closure')[0] in skip:
             continue
         closure_of = {}
         for b in f['blocks']:
@@ -193,6 +193,32 @@ def lower_and_then(j, baseline):
         for b in list(f['blocks']):
             t = b['term']
             if t['k'] != 'call' or b.get('cleanup') or t['func'].get('def') not in AND_THEN or len(t['args']) != 2 or t.get('target') is None:
+                continue
+            # only where the outcome decides the function's own outcome: the value is returned, or goes straight into `?`.  An
+            # intermediate Option / Result consumed as a value (`.and_then(..).map_or(..)`) stays a value
+            dst = t['dest']
+            decides = not dst['p'] and dst['l'] == 0
+            if not decides and not dst['p'] and t['target'] in {b_['i'] for b_ in f['blocks']}:
+                nxt = next((b_ for b_ in f['blocks'] if b_['i'] == t['target']), None)
+                hops = 0
+                cur_l = dst['l']
+                while nxt is not None and hops < 3:
+                    # through the moves rustc inserts between the call and the `?`
+                    for s_ in nxt['stmts']:
+                        if s_['k'] == 'assign' and not s_['place']['p'] and s_['rv']['k'] == 'use' and s_['rv']['op'].get('k') in ('move', 'copy') \
+                                and not s_['rv']['op']['place']['p'] and s_['rv']['op']['place']['l'] == cur_l:
+                            cur_l = s_['place']['l']
+                    t2 = nxt['term']
+                    if t2['k'] == 'call' and t2['func'].get('def') == 'std::ops::Try::branch' and t2['args'] and t2['args'][0].get('k') in ('move', 'copy') \
+                            and t2['args'][0]['place']['l'] == cur_l:
+                        decides = True
+                        break
+                    if t2['k'] == 'goto':
+                        nxt = next((b_ for b_ in f['blocks'] if b_['i'] == t2['target']), None)
+                        hops += 1
+                        continue
+                    break
+            if not decides:
                 continue
             kind = AND_THEN[t['func']['def']]
             r, fo = t['args']
@@ -261,9 +287,33 @@ def lower_and_then(j, baseline):
 def inline_new_helpers(j):
     """returns {'spliced': {caller: [callee..]}, 'removed': [..]}; mutates j"""
     baseline = load_baseline()
-    if baseline:
-        lower_and_then(j, baseline)
     cands = candidates(j, baseline)
+    if baseline:
+        # helpers that end up inside a function which used `and_then` at the baseline keep their form too (they are read as part of it)
+        keep = set(baseline.get('and_then_parents', []))
+        callers = {}
+        for f in j['fns']:
+            if f['label'] != 'fn':
+                continue
+            root = f['path'].split('::{closure')[0]
+            for b in f['blocks']:
+                t = b['term']
+                if t['k'] == 'call' and t['func'].get('res_local') and t['func'].get('res') in cands:
+                    callers.setdefault(t['func']['res'], set()).add(root)
+        skip = set()
+        for c in cands:
+            seen, work = set(), [c]
+            while work:
+                x = work.pop()
+                if x in seen:
+                    continue
+                seen.add(x)
+                for r in callers.get(x, ()):
+                    if r in keep:
+                        skip.add(c)
+                    elif r in cands:
+                        work.append(r)
+        lower_and_then(j, baseline, skip)
     info = {'candidates': sorted(cands), 'spliced': {}, 'removed': []}
     fns = {f['path']: f for f in j['fns'] if f['label'] == 'fn'}
     # closures that are called directly (`let fail = |m| Err(..); return fail(..)`) are local helper functions: spliced at the call,
